@@ -168,6 +168,13 @@ Definition run_channels (a : list Z) : list Z :=
   | _ => [-1]
   end.
 
+(* CMD buffer_sizes = 9 : buflen db0 db1 -> max_range_bytes single_buffer_size *)
+Definition run_buffer_sizes (a : list Z) : list Z :=
+  match a with
+  | [buflen; d0; d1] => [max_range_bytes (d0, d1); single_buffer_size buflen (d0, d1)]
+  | _ => [-1]
+  end.
+
 Definition run (cmd : Z) (a : list Z) : list Z :=
   if cmd =? 1 then run_encode_bias a
   else if cmd =? 2 then run_decode_bias a
@@ -177,4 +184,5 @@ Definition run (cmd : Z) (a : list Z) : list Z :=
   else if cmd =? 6 then run_create_dma a
   else if cmd =? 7 then run_cache_run a
   else if cmd =? 8 then run_channels a
+  else if cmd =? 9 then run_buffer_sizes a
   else [-1].
